@@ -172,7 +172,7 @@ def run_mutant(args):
         base = json.load(open("/root/.vp/BASELINE.json"))
         shutil.copytree(os.path.join(REPO, "test"), os.path.join(dst, "test"))
         junit = os.path.join(scratch, "junit.xml")
-        subprocess.run([PY, "-m", "pytest", "-q", "-x", "-p", "no:cacheprovider", "--timeout=600", "--continue-on-collection-errors",
+        subprocess.run([PY, "-m", "pytest", "-q", "-p", "no:cacheprovider", "--timeout=600", "--continue-on-collection-errors",
                         "--junitxml=" + junit, "test"], cwd=dst, env=dict(os.environ, PYTHONPATH=dst), capture_output=True, timeout=3000)
         passed = set()
         try:
